@@ -364,6 +364,11 @@ def check_node(g, role, loaded, v, prev_name):
 def judge(toks):
     """toks: list of (kind, text) without comments. Returns Verdict."""
     v = Verdict()
+    if any(0xDC80 <= ord(ch) <= 0xDCFF for k, x in toks for ch in x):
+        # a byte that is not valid UTF-8 (carried as a surrogate escape by the generators): lexical error
+        v.valid, v.why = False, "invalid UTF-8"
+        v.tree = None
+        return v
     tree = gparse(toks)
     v.tree = tree
     if tree is None:
